@@ -45,7 +45,7 @@ pub fn gen_case(seed: u64, family: &str, tier: Tier) -> Case {
         Traversal::Energy { vehicles, .. } => vehicles.clone(),
         _ => vec![],
     };
-    let pc = PluginChoice { override_heavy: false, grid: false, lb: None, inject: false, rtree: false };
+    let pc = PluginChoice { override_heavy: false, grid: false, lb: None, inject: false, rtree: false, edge_rtree: false };
     let nq = r.range(2, if tier == Tier::Quick { 10 } else { 24 }) as usize;
     let mut batch = vec![];
     for qid in 0..nq {
